@@ -1407,6 +1407,10 @@ func (t *fnTrans) loopHead(li *loopInfo) {
 		for _, c := range li.spec.Invariants {
 			t.assume(env.boolOf(c.Expr))
 		}
+		for _, c := range li.spec.Assumes {
+			t.assume(env.boolOf(c.Expr))
+			t.assumptions[fmt.Sprintf("loop %d: assumed at the loop head, not checked: %s", li.ordinal, c.Src)] = true
+		}
 		t.cover(fmt.Sprintf("loop%d", li.ordinal))
 		if li.spec.Decreases != nil {
 			m, _ := env.eval(li.spec.Decreases.Expr)
